@@ -11,6 +11,10 @@ EXC_CLASS = {"KeyError": 0, "ValueError": 1, "IndexError": 2, "RuntimeError": 3,
 WAIT = "harness-wait-marker"
 
 
+class LinkLayerBusy(RuntimeError):
+    """raised by the scripted network stack's put() when the scenario says so"""
+
+
 def purpose_of(pm, sock):
     """pm: "id" | "swap" (cross-connected sockets 0 <-> 1) | ("off", d)"""
     if pm == "id":
@@ -29,8 +33,12 @@ def make_classes(m):
         def __init__(self, pm="id"):
             self.requests = []
             self.pm = pm
+            self.refuse = False      # fault injection: the next put is refused
 
         def put(self, request):
+            if self.refuse:
+                self.refuse = False
+                raise LinkLayerBusy("link layer busy: request refused")
             self.requests.append(request)
 
         def setup_epr_socket(self, epr_socket_id, remote_node_id, remote_epr_socket_id, timeout=1.0):
@@ -94,6 +102,8 @@ class EprWorld:
         self.msg_id = 0
         self.gens = {}
         self.slots = {}
+        self.dead = set()       # subroutines that ended at an injected put() fault (the executor keeps
+                                # their entry in _subroutines: exceptions skip _clear_subroutine)
         list(self.ctrl.handle_netqasm_message(0, m["messages"].InitNewAppMessage(0, um_size)))
 
     # ------------------------------------------------------------------ subroutines as generators
@@ -162,6 +172,23 @@ class EprWorld:
                 sid = self._start(t)
                 self.slots[sid] = slot
                 self._advance(sid)
+            elif kind == "CreateRefused":
+                _, (remote, sock), tpk, vs, n, qarr, args, res = ev
+                t = self._fill(qarr, vs) if tpk else ""
+                t += (f"set R0 20\narray R0 @{args}\nset R0 {0 if tpk else 1}\nset R1 0\nstore R0 @{args}[R1]\n"
+                      f"set R0 {n}\nset R1 1\nstore R0 @{args}[R1]\nset R0 {10 * n}\narray R0 @{res}\n"
+                      f"set R0 {remote}\nset R1 {sock}\n" + (f"set R2 {qarr}\n" if tpk else "")
+                      + f"set R3 {args}\nset R4 {res}\ncreate_epr R0 R1 {'R2' if tpk else 'C15'} R3 R4\n"
+                      f"set C14 0\nset C15 {10 * n}\nwait_all @{res}[C14:C15]\n")
+                self.ctrl.network_stack.refuse = True
+                sid = self._start(t)
+                try:
+                    self._advance(sid)
+                    raise AssertionError("harness: the refused create_epr did not fault")
+                except LinkLayerBusy:
+                    self.dead.add(sid)      # the instruction faulted at that line, the subroutine ended
+                finally:
+                    self.ctrl.network_stack.refuse = False
             elif kind == "Recv":
                 _, (remote, sock), vs, n, qarr, res, ws = ev
                 slot = self._slot()
@@ -221,7 +248,7 @@ class EprWorld:
         return dict(arrs={a: list(l) for a, l in ex._app_arrays[0]._arrays.items()},
                     um=list(ex._qubit_unit_modules[0]),
                     creq=qview(ex._epr_create_requests), rreq=qview(ex._epr_recv_requests),
-                    pend=pend, alive=sorted(ex._subroutines.keys()),
+                    pend=pend, alive=sorted(k for k in ex._subroutines.keys() if k not in self.dead),
                     blocked=sorted(self.gens.keys()))
 
 
@@ -336,6 +363,14 @@ class FifoRef:
         elif k == "Recv":
             _, key, vs, n, qarr, res, ws = ev
             self.request(key, False, vs, n, qarr, res, ws)
+        elif k == "CreateRefused":
+            # the network stack refused the request: nothing is outstanding because of it
+            _, key, tpk, vs, n, qarr, args, res = ev
+            if tpk:
+                self.arrays[qarr] = list(vs)
+            self.arrays[args] = [0 if tpk else 1, n] + [None] * 18
+            self.arrays[res] = [None] * (10 * n)
+            self.nsid += 1
         elif k == "Resp":
             self.response(ev[1])
         elif k == "Retry":
@@ -413,6 +448,10 @@ def coq_event(ev):
         _, key, tpk, vs, n, qarr, args, res, ws = ev
         return (f"(ICreate {z(key[0])} {z(key[1])} {coqb(tpk)} {lst(z(v) for v in vs)} {nat(n)} {z(qarr)} {z(args)} {z(res)} "
                 f"{coq_ws(ws)})")
+    if k == "CreateRefused":
+        _, key, tpk, vs, n, qarr, args, res = ev
+        return (f"(ICreateRefused {z(key[0])} {z(key[1])} {coqb(tpk)} {lst(z(v) for v in vs)} {nat(n)} {z(qarr)} {z(args)} "
+                f"{z(res)})")
     if k == "Recv":
         _, key, vs, n, qarr, res, ws = ev
         vst = "None" if vs is None else f"(Some {lst(z(v) for v in vs)})"
